@@ -79,9 +79,16 @@ impl BinRead for ChunkData {
         })?;
 
         // Read remaining data
+        // Read at most `data_size` bytes without trusting the size field for
+        // the allocation (it comes from the chunk table of an untrusted file).
         let data_size = compressed_size - 1;
-        let mut data = vec![0u8; data_size];
-        reader.read_exact(&mut data)?;
+        let mut data = Vec::new();
+        reader.take(data_size as u64).read_to_end(&mut data)?;
+        if data.len() != data_size {
+            return Err(binrw::Error::Io(binrw::io::Error::from(
+                binrw::io::ErrorKind::UnexpectedEof,
+            )));
+        }
 
         Ok(Self {
             mode,
